@@ -10,6 +10,7 @@ CONSTANTS
   EmptyReq = "empty"
   ModeReq = "mode"
   Variant = "fixed"
+  WithExp = TRUE
   TrackHeld = FALSE
   ReturnsView = FALSE
 POSTCONDITION TraceDone
